@@ -116,11 +116,22 @@ def run(ctx):
             completed += 1
             if r.get("elapsed_ms", 0) > 3000:
                 slow += 1
+    # the FileBegin wake-up registry itself, free-running (Model/FileWait)
+    fw = [{"mode": "fwstorm", "name": f"fw-{r}r", "readers": r, "rounds": 3000 if full else 800, "seed": ctx.seed * 131 + r} for r in (1, 2, 3, 5, 8)]
+    rcf, fres = G.run_xfer(ctx, exe, "fwstorm", fw, timeout=600)
+    ctx.oblige("harness:fwstorm", rcf == 0 and len(fres) == len(fw), ctx.harness_stderr[-300:])
+    fw_parked = fw_rounds = 0
+    for c, r in zip(fw, fres):
+        fw_parked += r.get("parked", 0)
+        fw_rounds += r.get("rounds", 0)
+        if r.get("lost"):
+            ctx.violation("C03:lost-wakeup:registry", f"{r['lost']} of {c['readers']} data readers never came back from the FileBegin wait (round {r.get('lost_at_round')} of a free-running storm "
+                          f"on the real registry): a healthy transfer would wait forever", {"case": c, "result": r})
     # the file scheduler: it may decline only when nothing may be started (C03_scheduler_no_starvation), whatever the clock says
     from checks import c17
     sched, smodel, sbad = c17.sched_differential(ctx, pure, "C03")
     ctx.coverage.update({
-        "scheduler_histories": len(sched), "scheduler_disagreements": len(sbad),
+        "scheduler_histories": len(sched), "scheduler_disagreements": len(sbad), "wakeup_storm_rounds": fw_rounds, "wakeup_storm_parked_readers": fw_parked,
         "evaluations": len(bcases) + len(ncases) + len(cases) + len(sched), "distinct_nontrivial": completed,
         "rule": "grid files {0,1,2,5} x chunks-per-file {0,1,2,5} x streams {1,2,4,8} x connections {1,2,4} x resume {off,on,on-after-partial} over netsim with QUIC stream-visibility semantics "
                 "(quick: one third sampled; thorough: complete), seeded points of the same grid over real loopback QUIC, trees with unusual legal names; the same with FileBegin handling delayed by 40 ms / 450 ms (beyond the sender's 300 ms resume grace: chunk frames overtake it) and every data reader held for 150 ms / 700 ms between its state look-up and its wait for FileBegin (lost wake-up window); files of 32-128 chunks with FileBegin held 450 ms and readers not held (several readers parked for one file, all must be woken); every run must end with both endpoints nil inside the watchdog. "
